@@ -139,9 +139,9 @@ def run(ctx):
     # multi-currency clearing theorems (coq/GenClear2) for ALL programs of Main2.build2: the lists of demanders / suppliers /
     # holders the theorems name are compared with the object model, the side conditions are evaluated, and the identities are
     # tested on the emitted rows
-    gen_clear2.extra(ctx, out, 40, 600)
+    gen_clear2.extra(ctx, out, 40, 400)
     # every row of the same kind of programs against build2 (error classes included): a row the identities above would not miss
-    gen_main2.extra(ctx, out, 30, 500)
+    gen_main2.extra(ctx, out, 30, 300)
     return out
 
 
